@@ -95,6 +95,7 @@ def _solve_case(draw):
     P['steps'] = draw(st.integers(1, 5)) if closed else 1
     P['theta'] = 10.0 ** draw(st.floats(-4, 4))         # dt = theta / ||A||
     P['theta_explicit'] = draw(st.floats(0.01, 0.5))
+    P['bc_style'] = draw(st.sampled_from(['passed', 'passed', 'late', 'late_min', 'late_c', 'shared_late', 'late_explicit']))
     flagvar = {ax: draw(st.sampled_from(['both', 'both', 'lo', 'hi'])) for ax in per}     # an axis is periodic as soon as one flag is set
     if closed:
         P['bc'] = gen.noflux_bcs(name, d, per)
@@ -156,8 +157,10 @@ def enumerate_cases(tier):
                             D.append(dd.tolist())
                         P = dict(name=name, faces=faces, scheme=scheme, FL='VanLeer', D=D, u=u, bc=bc, init=gen.expand('generic', 7, d).tolist(),
                                  alpha=1.0, beta=None, gamma=None, steps=2, theta=3.0, theta_explicit=0.3)
-                        yield dict(kind='solve', closed=True, periodic_axes=list(per), P=P,
-                                   grid=dict(name=name, faces=faces, spacing=['random'] * nd), enumerated=True)
+                        # the declaration is made at construction, or afterwards on the existing variable (touching nothing else)
+                        for style in ('passed', 'late_min'):
+                            yield dict(kind='solve', closed=True, periodic_axes=list(per), P=dict(P, bc_style=style),
+                                       grid=dict(name=name, faces=faces, spacing=['random'] * nd), enumerated=True)
 
 
 def budget(tier):
@@ -381,6 +384,7 @@ def _check_solve(case):
             I0 = I1
         # explicit steps, same closed problem
         m, BC, phi = problem.build_var(P)
+        phi.apply_BCs()       # documented duty of the caller when ghost cells are read before a solve
         A, s = problem.spatial_operator(m, P)
         dte = P["theta_explicit"] / (nrm if nrm > 0 else 1.0)
         I0 = _integral(name, phi, geo, demo == 'K1')
@@ -397,6 +401,7 @@ def _check_solve(case):
                              f"periodic axes {case['periodic_axes']})", known=demo if demo in ('K1', 'K2', 'K7') else None)
             I0 = I1
     else:
+        phi.apply_BCs()       # ghost cells are read below before the solve (documented duty of the caller after late BC edits)
         I0 = _integral(name, phi, geo, demo == 'K1')
         old = np.array(phi.value)
         oldfull = np.array(phi._value)
